@@ -158,7 +158,10 @@ async fn run_random(rng: &mut Rng, adversarial: bool) -> Case {
             }
         } else {
             let c = 1 + rng.below(npeers);
-            Msg::Drop(c, if rng.chance(3, 4) { gen_of[c as usize] } else { rng.below(2) })
+            let k = if rng.chance(3, 4) { gen_of[c as usize] } else { rng.below(2) };
+            // the connection will come back under the same circuit id with a new channel
+            if k == gen_of[c as usize] && rng.chance(3, 4) { gen_of[c as usize] += 1; }
+            Msg::Drop(c, k)
         };
         book.msg(&m);
         let g = sim.apply(&m).await;
@@ -180,12 +183,17 @@ async fn run_random(rng: &mut Rng, adversarial: bool) -> Case {
 // in flight and answers with an error to let it end (every exit path of the task unlocks).
 // ================================================================================================
 #[derive(Clone, Debug, PartialEq)]
-enum CEv { Request(u64, Vec<u64>), Take(u64), Finish(u64, u64), End(u64) }
+enum CEv { Request(u64, Vec<u64>), Take(u64), TakeFail(u64), Finish(u64, u64), End(u64),
+           /// harness-only steps of the real-loop cases (no model event, no observation): complete the RoomList answer
+           /// (the loop becomes idle); close the connection's query channel
+           HIdle, HCloseQuery }
 impl CEv {
     fn coq(&self) -> String {
         match self {
             CEv::Request(c, rooms) => format!("CRequest {} {}", gn(*c), glist(&rooms.iter().map(|r| gn(*r)).collect::<Vec<_>>())),
             CEv::Take(c) => format!("CTake {}", gn(*c)),
+            CEv::TakeFail(c) => format!("CTakeFail {}", gn(*c)),
+            CEv::HIdle | CEv::HCloseQuery => String::new(),
             CEv::Finish(c, r) => format!("CFinish {} {}", gn(*c), gn(*r)),
             CEv::End(c) => format!("CEnd {}", gn(*c)),
         }
@@ -221,7 +229,7 @@ async fn shared() -> Shared {
 }
 struct ConnState {
     tx: mpsc::UnboundedSender<Uid>, rx: Option<mpsc::UnboundedReceiver<Uid>>, inbox: VecDeque<u64>,
-    acquired: Arc<Mutex<HashSet<Uid>>>, qs: QueryService, q_rx: mpsc::Receiver<QueryProtocol>, a_tx: mpsc::Sender<Answer>,
+    acquired: Arc<Mutex<HashSet<Uid>>>, qs: QueryService, q_rx: mpsc::Receiver<QueryProtocol>, a_tx: Option<mpsc::Sender<Answer>>,
     running: Vec<(u64, u64)>,   // (room, id of the withheld query)
     ended: bool,
 }
@@ -233,7 +241,7 @@ impl ConnSim {
             let (tx, rx) = mpsc::unbounded_channel::<Uid>();
             let (q_tx, q_rx) = mpsc::channel::<QueryProtocol>(64);
             let (a_tx, a_rx) = mpsc::channel::<Answer>(64);
-            ConnState { tx, rx: Some(rx), inbox: VecDeque::new(), acquired: Arc::new(Mutex::new(HashSet::new())), qs: QueryService::start(q_tx, a_rx), q_rx, a_tx, running: vec![], ended: false }
+            ConnState { tx, rx: Some(rx), inbox: VecDeque::new(), acquired: Arc::new(Mutex::new(HashSet::new())), qs: QueryService::start(q_tx, a_rx), q_rx, a_tx: Some(a_tx), running: vec![], ended: false }
         })
     }
     async fn quiesce(&self) { for _ in 0..8 { self.svc.unlock(uid_of(NOOP_ROOM)).await; } }
@@ -266,12 +274,38 @@ impl ConnSim {
                     }
                 }
             }
+            CEv::TakeFail(c) => {
+                // the remote side of the connection's query channel is gone: the task started for the oldest grant fails at
+                // its first request and unlocks at once.  If process_acquired_room itself fails, the loop of
+                // LocalPeerService::start breaks: the harness then plays the end of the connection, as the caller does
+                let svc = self.svc.clone();
+                let st = self.conn(*c);
+                if !st.ended {
+                    if st.a_tx.take().is_some() { settle().await; }
+                    if let Some(r) = st.inbox.pop_front() {
+                        let before = Arc::strong_count(&st.acquired);
+                        let res = LocalPeerService::verif_process_acquired_room(uid_of(r), st.acquired.clone(), st.qs.clone(), svc.clone(), sh.peers.clone(), &sh.services).await;
+                        if res.is_err() {
+                            let mut rooms: Vec<Uid> = st.acquired.lock().await.iter().cloned().collect();
+                            rooms.sort_by_key(|u| room_index(u));
+                            LocalPeerService::cleanup(&svc, rooms).await;
+                            for _ in 0..8 { svc.unlock(uid_of(NOOP_ROOM)).await; }
+                            end_of = Some(*c);
+                        } else {
+                            let mut ok = false;
+                            for _ in 0..16000 { settle().await; if Arc::strong_count(&st.acquired) <= before { ok = true; break; } tokio::time::sleep(std::time::Duration::from_micros(500)).await; }
+                            if !ok { self.broken = true; }
+                        }
+                    }
+                }
+            }
+            CEv::HIdle | CEv::HCloseQuery => {}
             CEv::Finish(c, r) => {
                 let st = self.conn(*c);
                 if let Some(pos) = st.running.iter().position(|x| x.0 == *r) {
                     let (_, id) = st.running.remove(pos);
                     let before = Arc::strong_count(&st.acquired);
-                    let _ = st.a_tx.send(Answer { id, success: false, complete: true, serialized: bincode::serialize(&SyncError::Authorisation("withheld".into())).unwrap() }).await;
+                    if let Some(a) = st.a_tx.as_ref() { let _ = a.send(Answer { id, success: false, complete: true, serialized: bincode::serialize(&SyncError::Authorisation("withheld".into())).unwrap() }).await; }
                     // the task ends (unlock, then acquired_lock.remove) and drops its handle on acquired_lock
                     let mut ok = false;
                     for _ in 0..16000 { if Arc::strong_count(&st.acquired) < before { ok = true; break; } tokio::time::sleep(std::time::Duration::from_micros(500)).await; }
@@ -321,7 +355,7 @@ impl ConnSim {
     async fn shutdown(&mut self) {
         for (_, st) in self.conns.iter_mut() {
             for (_, id) in st.running.drain(..) {
-                let _ = st.a_tx.send(Answer { id, success: false, complete: true, serialized: bincode::serialize(&SyncError::Authorisation("end".into())).unwrap() }).await;
+                if let Some(a) = st.a_tx.as_ref() { let _ = a.send(Answer { id, success: false, complete: true, serialized: bincode::serialize(&SyncError::Authorisation("end".into())).unwrap() }).await; }
             }
         }
     }
@@ -341,7 +375,7 @@ async fn conn_event(sim: &mut ConnSim, sh: &Shared, e: &CEv, obs: &mut Vec<i64>,
     obs.push(t.len() as i64); for (c, r) in &t { obs.push(*c as i64); obs.push(*r as i64); }
 }
 fn conn_case(kind: &str, max: usize, evs: &[CEv], obs: Vec<i64>, st: &CStats, broken: bool) -> Case {
-    Case { kind: kind.into(), coq: format!("CConn {}%nat {}", max, glist(&evs.iter().map(|e| e.coq()).collect::<Vec<_>>())), obs,
+    Case { kind: kind.into(), coq: format!("CConn {}%nat {}", max, glist(&evs.iter().map(|e| e.coq()).filter(|x| !x.is_empty()).collect::<Vec<_>>())), obs,
            meta: json!({"max": max, "events": evs.len(), "grants": st.grants, "takes": st.takes, "finishes": st.finishes, "ends": st.ends,
                         "end_with_running_task": st.end_with_task, "end_with_waiting_grant": st.end_with_inbox, "two_tasks_one_room": st.two_tasks_one_room,
                         "max_tasks": st.max_tasks, "harness_sync_broken": broken}) }
@@ -408,9 +442,9 @@ async fn run_conn_random(sh: &Shared, rng: &mut Rng, careless_ends: bool) -> Cas
 // The runtime is single threaded: after each stimulus the harness yields until every task is idle.
 // ================================================================================================
 struct RealConn {
-    remote_events: mpsc::Sender<RemoteEvent>, _local_events: broadcast::Sender<LocalEvent>, _events_out: mpsc::Receiver<RemoteEvent>,
-    q_rx: mpsc::Receiver<QueryProtocol>, a_tx: mpsc::Sender<Answer>, peer_tx: mpsc::Sender<PeerConnectionMessage>, peer_rx: mpsc::Receiver<PeerConnectionMessage>,
-    _inbound_q: mpsc::Sender<QueryProtocol>, _inbound_a: mpsc::Receiver<Answer>, room_list_id: u64, ended: bool,
+    remote_events: Option<mpsc::Sender<RemoteEvent>>, _local_events: broadcast::Sender<LocalEvent>, _events_out: mpsc::Receiver<RemoteEvent>,
+    q_rx: mpsc::Receiver<QueryProtocol>, a_tx: Option<mpsc::Sender<Answer>>, peer_tx: mpsc::Sender<PeerConnectionMessage>, peer_rx: mpsc::Receiver<PeerConnectionMessage>,
+    _inbound_q: mpsc::Sender<QueryProtocol>, _inbound_a: mpsc::Receiver<Answer>, room_list_id: u64, ended: bool, idle: bool,
 }
 async fn settle() { for _ in 0..300 { tokio::task::yield_now().await; } }
 async fn open_real_conn(sh: &Shared, svc: &RoomLockService) -> Option<RealConn> {
@@ -445,7 +479,7 @@ async fn open_real_conn(sh: &Shared, svc: &RoomLockService) -> Option<RealConn> 
     remote_events.send(RemoteEvent::Ready).await.ok()?;
     let qp = tokio::time::timeout(std::time::Duration::from_secs(8), q_rx.recv()).await.ok()??;
     if !matches!(qp.query, Query::RoomList) { return None; }
-    Some(RealConn { remote_events, _local_events: local_tx, _events_out: ev_rx, q_rx, a_tx, peer_tx, peer_rx, _inbound_q: in_q_tx, _inbound_a: in_a_rx, room_list_id: qp.id, ended: false })
+    Some(RealConn { remote_events: Some(remote_events), _local_events: local_tx, _events_out: ev_rx, q_rx, a_tx: Some(a_tx), peer_tx, peer_rx, _inbound_q: in_q_tx, _inbound_a: in_a_rx, room_list_id: qp.id, ended: false, idle: false })
 }
 async fn run_loop_fixed(sh: &Shared, kind: &str, max: usize, evs: &[CEv]) -> Case {
     let mut sim = ConnSim::new(max);
@@ -453,20 +487,39 @@ async fn run_loop_fixed(sh: &Shared, kind: &str, max: usize, evs: &[CEv]) -> Cas
     let mut real = open_real_conn(sh, &sim.svc).await;
     if real.is_none() { sim.broken = true; }
     for e in evs {
-        let mine = matches!(e, CEv::Request(1, _) | CEv::Take(1) | CEv::Finish(1, _) | CEv::End(1));
+        let mine = matches!(e, CEv::Request(1, _) | CEv::Take(1) | CEv::TakeFail(1) | CEv::Finish(1, _) | CEv::End(1) | CEv::HIdle | CEv::HCloseQuery);
         if !mine { conn_event(&mut sim, sh, e, &mut obs, &mut st).await; continue; }
         if let Some(rc) = real.as_mut() {
             match e {
                 CEv::Request(_, rooms) if !rc.ended => {
                     let batch: VecDeque<Uid> = rooms.iter().map(|r| uid_of(*r)).collect();
-                    let _ = rc.a_tx.send(Answer { id: rc.room_list_id, success: true, complete: false, serialized: bincode::serialize(&batch).unwrap() }).await;
+                    if let Some(a) = rc.a_tx.as_ref() { let _ = a.send(Answer { id: rc.room_list_id, success: true, complete: false, serialized: bincode::serialize(&batch).unwrap() }).await; }
                     settle().await;
                 }
+                CEv::HIdle if !rc.ended => {
+                    // the RoomList answer is complete: the loop leaves the Ready handler and is idle
+                    if let Some(a) = rc.a_tx.as_ref() { let _ = a.send(Answer { id: rc.room_list_id, success: true, complete: true, serialized: bincode::serialize(&"").unwrap() }).await; }
+                    rc.idle = true;
+                    settle().await;
+                    continue;
+                }
+                CEv::HCloseQuery if !rc.ended => {
+                    // the remote end of the query channel goes away: the QueryService of the connection stops
+                    rc.a_tx = None;
+                    settle().await; sim.quiesce().await; settle().await;
+                    continue;
+                }
+                CEv::TakeFail(_) => { settle().await; sim.quiesce().await; settle().await; }     // taken by the real loop as soon as it could
                 CEv::End(_) if !rc.ended => {
                     st.ends += 1;
                     // keep the task waiting in `disconnect`, its lock receiver alive
                     while rc.peer_tx.try_send(PeerConnectionMessage::SendAnnounce()).is_ok() {}
-                    let _ = rc.a_tx.send(Answer { id: rc.room_list_id, success: false, complete: false, serialized: bincode::serialize(&SyncError::Authorisation("end".into())).unwrap() }).await;
+                    match (rc.idle, rc.a_tx.as_ref()) {
+                        // busy loop: an error batch makes the Ready handler fail
+                        (false, Some(a)) => { let _ = a.send(Answer { id: rc.room_list_id, success: false, complete: false, serialized: bincode::serialize(&SyncError::Authorisation("end".into())).unwrap() }).await; }
+                        // idle loop (or query channel gone): the remote event channel closes
+                        _ => { rc.remote_events = None; }
+                    }
                     settle().await;
                     sim.quiesce().await;      // the service handles what cleanup / the drain released ...
                     settle().await;
@@ -495,7 +548,7 @@ async fn run_loop_fixed(sh: &Shared, kind: &str, max: usize, evs: &[CEv]) -> Cas
         obs.push(t.len() as i64); for (c, r) in &t { obs.push(*c as i64); obs.push(*r as i64); }
     }
     sim.shutdown().await;
-    if let Some(rc) = real.as_mut() { let _ = &rc.remote_events; let _ = &rc.q_rx; }
+    if let Some(rc) = real.as_mut() { let _ = &rc.q_rx; }
     let mut c = conn_case(kind, max, evs, obs, &st, sim.broken);
     c.coq = c.coq.replacen("CConn", "CLoop", 1);
     c
@@ -507,6 +560,7 @@ fn alphabet(small: bool) -> Vec<Msg> {
     for c in 1..=2u64 { for rs in &room_sets { a.push(Msg::Request(c, rs.clone(), 0)); } }
     for c in 1..=2u64 { for r in 1..=2u64 { a.push(Msg::Unlock(c, r)); } }
     a.push(Msg::Drop(1, 0));
+    a.push(Msg::Request(1, vec![1], 1));       // connection 1 comes back with a new reply channel
     if !small { a.push(Msg::Drop(2, 0)); a.push(Msg::Request(3, vec![2, 1], 0)); a.push(Msg::Unlock(3, 1)); }
     a
 }
@@ -550,6 +604,10 @@ async fn main() {
             Unlock(2, 6), Request(2, vec![6], 0), Unlock(3, 5), Request(3, vec![5], 0), Unlock(2, 6), Request(2, vec![6], 0), Unlock(1, 5), Request(1, vec![5], 0),
             Unlock(2, 6), Unlock(3, 5), Unlock(2, 6), Unlock(1, 5)]).await);
     }
+    // a peer reconnects under the same circuit id with a new reply channel after its old channel died while it was waiting;
+    // in between another circuit asks for rooms.  What it asks for on the new channel is owed again
+    out.push(run_fixed("directed-reconnect-same-circuit", 1, &[Request(2, vec![5], 0), Request(1, vec![5], 0), Drop(1, 0), Request(3, vec![6], 0), Request(1, vec![5], 1), Unlock(2, 5), Unlock(1, 5), Unlock(3, 6)]).await);
+    out.push(run_fixed("directed-reconnect-same-circuit-free-room", 2, &[Request(2, vec![5], 0), Request(1, vec![5], 0), Drop(1, 0), Request(3, vec![6], 0), Request(1, vec![7], 1), Unlock(1, 7), Unlock(2, 5), Request(1, vec![5, 6], 1), Unlock(3, 6), Unlock(1, 6), Unlock(1, 5)]).await);
     out.push(run_fixed("directed-release-not-held", 2, &[Unlock(1, 5), Request(1, vec![5], 0), Unlock(2, 6), Unlock(1, 5), Unlock(1, 5), Request(2, vec![5], 0)]).await);
 
     // ---- exhaustive enumeration over a small alphabet (the state space for small bounds is finite) ----
@@ -605,6 +663,18 @@ async fn main() {
         out.push(run_loop_fixed(&sh, "loop-directed-pending-room-at-end", 1, &[Request(1, vec![5, 6]), End(1), Request(9, vec![6]), Take(9), Finish(9, 6), Request(9, vec![5]), Take(9), Finish(9, 5)]).await);
         out.push(run_loop_fixed(&sh, "loop-directed-two-grants-waiting", 2, &[Request(2, vec![5]), Take(2), Request(1, vec![5]), Request(1, vec![6, 7]), Finish(2, 5), End(1), Request(9, vec![5]), Take(9), Finish(9, 5), Request(9, vec![6]), Take(9), Finish(9, 6), Request(9, vec![7]), Take(9), Finish(9, 7)]).await);
         out.push(run_loop_fixed(&sh, "loop-directed-others-waiting-at-end", 1, &[Request(1, vec![5, 6, 7]), Request(2, vec![7, 6]), End(1), Take(2), Finish(2, 6), Take(2), Finish(2, 7), Request(9, vec![5]), Take(9), Finish(9, 5), Request(9, vec![6])]).await);
+    }
+    {
+        use CEv::*;
+        // the remote query channel goes away while the loop is IDLE; then a grant reaches the connection: the loop takes it, the
+        // task fails at once and unlocks; nothing the connection was granted may stay locked after it ended
+        out.push(run_loop_fixed(&sh, "loop-directed-query-closed-then-grant", 2, &[Request(2, vec![5]), Take(2), Request(1, vec![5]), HIdle, HCloseQuery, Finish(2, 5), TakeFail(1), End(1), Request(9, vec![5]), Take(9), Finish(9, 5)]).await);
+        // the query channel goes away while a grant WAITS in the lock channel of a busy loop: the handler returns, the loop takes the grant
+        out.push(run_loop_fixed(&sh, "loop-directed-grant-waiting-then-query-closed", 1, &[Request(1, vec![5]), HCloseQuery, TakeFail(1), End(1), Request(9, vec![5]), Take(9), Finish(9, 5), Request(9, vec![6])]).await);
+        out.push(run_loop_fixed(&sh, "loop-directed-two-grants-then-query-closed", 2, &[Request(1, vec![5, 6]), HCloseQuery, TakeFail(1), TakeFail(1), End(1), Request(9, vec![5]), Take(9), Finish(9, 5), Request(9, vec![6]), Take(9), Finish(9, 6)]).await);
+        // played variant: the grant is taken, the task cannot start / fails, later the connection ends
+        out.push(run_conn_fixed(&sh, "conn-directed-take-with-closed-query", 1, &[Request(1, vec![5]), TakeFail(1), Request(2, vec![5]), Take(2), Finish(2, 5), End(1), Request(9, vec![5]), Take(9), Finish(9, 5)]).await);
+        out.push(run_conn_fixed(&sh, "conn-directed-take-with-closed-query-2", 2, &[Request(1, vec![5, 6]), Take(1), TakeFail(1), Finish(1, 6), End(1), Request(9, vec![5]), Request(9, vec![6]), Take(9), Take(9), Finish(9, 5), Finish(9, 6)]).await);
     }
     let nl = scale(40, 400);
     for _ in 0..nl {
